@@ -91,9 +91,9 @@ Record nv := mknv {
 Inductive outcome :=
 | Accept      (* compare() returns *)
 | Reject      (* AssertionError *)
-| StopIter    (* next() on an empty query result *)
-| IndexErr    (* name.split("_")[3], properties_composer[x] *)
-| KeyErr      (* properties_composer[x][key] *)
+| StopIter    (* next() on an empty query result: no longer raised (next(..., None) + assert) *)
+| IndexErr    (* name.split("_")[3] *)
+| KeyErr      (* properties_composer[x][key]: unreachable after the assert on the key sets *)
 | AttrErr     (* attribute of None *)
 | TypeErr     (* "..." + None while building the message of a failing assert *)
 | Ill.        (* the value is not the abstraction of a netlist the model covers *)
@@ -148,7 +148,7 @@ Definition lookup {A} (name : A -> oname) (skip_unnamed : bool) (pat : str) (l :
   else find (scan_match name skip_unnamed pat) l.
 
 (* for orig in origs: if orig.name is None: continue; [if skip: continue];
-   c = next(get(composer_parent, orig.name)); compare(orig, c) *)
+   c = next(get(composer_parent, orig.name), None); assert c is not None; compare(orig, c) *)
 Fixpoint cmp_each {A} (name : A -> oname) (skip : A -> bool) (look : str -> option A)
          (f : A -> A -> outcome) (origs : list A) : outcome :=
   match origs with
@@ -159,7 +159,7 @@ Fixpoint cmp_each {A} (name : A -> oname) (skip : A -> bool) (look : str -> opti
     | Some n =>
       if skip o then cmp_each name skip look f rest
       else match look n with
-           | None => StopIter
+           | None => Reject                       (* assert c is not None, "Composer is missing ..." *)
            | Some c => seq (f o c) (cmp_each name skip look f rest)
            end
     end
@@ -423,24 +423,33 @@ Definition nv_keys (a : nv) : list (list (list (list (list (outcome + pkey))))) 
   map (fun l => map (def_keys (l_name l)) (l_defs l)) (n_libs a).
 
 (* ---------- compare_instances ---------- *)
-Fixpoint cmp_items (items : pdict) (oc : option pdict) : outcome :=
+Definition has_key (k : str) (d : pdict) : bool :=
+  match sassoc k d with Some _ => true | None => false end.
+
+(* properties_orig[x].keys() == properties_composer[x].keys(): the same set of keys *)
+Definition keys_eqb (o c : pdict) : bool :=
+  forallb (fun kv => has_key (fst kv) c) o && forallb (fun kv => has_key (fst kv) o) c.
+
+(* for key, value in properties_orig[x].items():
+     assert properties_orig[x][key] == properties_composer[x][key] *)
+Fixpoint cmp_items (items : pdict) (dc : pdict) : outcome :=
   match items with
   | [] => Accept
   | (k, v) :: rest =>
-    match oc with
-    | None => IndexErr                            (* properties_composer[x] *)
-    | Some dc =>
-      match sassoc k dc with
-      | None => KeyErr                            (* properties_composer[x][key] *)
-      | Some v' => seq (check (pval_eqb v v')) (cmp_items rest oc)
-      end
+    match sassoc k dc with
+    | None => KeyErr                              (* properties_composer[x][key]; never after keys_eqb *)
+    | Some v' => seq (check (pval_eqb v v')) (cmp_items rest dc)
     end
   end.
 
-Fixpoint cmp_props (x : nat) (po pc : list pdict) : outcome :=
-  match po with
-  | [] => Accept
-  | d :: po' => seq (cmp_items d (nth_error pc x)) (cmp_props (S x) po' pc)
+(* for x in range(len(properties_orig)): assert same keys; the items loop
+   (the two lists have the same length here) *)
+Fixpoint cmp_props (po pc : list pdict) : outcome :=
+  match po, pc with
+  | o :: po', c :: pc' =>
+    seq (check (keys_eqb o c)) (seq (cmp_items o c) (cmp_props po' pc'))
+  | [], _ => Accept
+  | _ :: _, [] => IndexErr                        (* properties_composer[x]; never after the length assert *)
   end.
 
 Definition cmp_ref (ro rc : option (oname * oname)) : outcome :=
@@ -461,10 +470,14 @@ Definition cmp_inst (o c : option inst) : outcome :=
        | Some io, Some ic =>
          seq (cmp_ref (i_ref io) (i_ref ic))
              (match i_props io with
-              | None => Accept
+              | None => match i_props ic with
+                        | None => Accept
+                        | Some _ => Reject       (* Original is missing properties *)
+                        end
               | Some po => match i_props ic with
                            | None => Reject      (* Composer is missing properties *)
-                           | Some pc => cmp_props 0 po pc
+                           | Some pc =>
+                             seq (check (Nat.eqb (length po) (length pc))) (cmp_props po pc)
                            end
               end)
        | _, _ => AttrErr                          (* None.reference *)
